@@ -268,7 +268,9 @@ func run(c *core.Ctx) error {
 	// 1. the model decides
 	cfgs := []string{"ScorchDisk_mc_disk.cfg", "ScorchDisk_mc_reader.cfg"}
 	if c.Thorough() {
-		cfgs = append(cfgs, "ScorchDisk_mc_copy.cfg", "ScorchDisk_mc_disk_thorough.cfg")
+		// async release of epochs (2.1M states), the larger bounds (1.0M) and the in-memory
+		// merge of the persister with unsafe batches (1.6M): about 2 minutes each on 8 workers
+		cfgs = append(cfgs, "ScorchDisk_mc_copy.cfg", "ScorchDisk_mc_disk_thorough.cfg", "ScorchDisk_mc_disk_thorough_big.cfg", "ScorchDisk_mc_memmerge_thorough.cfg")
 	}
 	for _, cfg := range cfgs {
 		if _, ok := c.ModelCheck("ScorchDisk", cfg, core.Workers(8), core.Timeout(25*time.Minute), core.Heap(8000)); !ok {
